@@ -182,6 +182,9 @@ func scanClone(c *core.Ctx) []ob {
 						continue
 					}
 					cc := compareLeaves(pk.TypesInfo, lvs[i], lvs[i+1])
+					if cc.inconsistency() != "" && inPlaceVariant(pk.TypesInfo, list[i], list[i+1], lvs[i], lvs[i+1]) {
+						continue
+					}
 					if cc.same*10 >= cc.total*6 && cc.same < cc.total {
 						report("statements", list[i], list[i+1], cc)
 					}
@@ -192,6 +195,41 @@ func scanClone(c *core.Ctx) []ob {
 	})
 	c.Stats["clone_pairs"] = nPairs
 	return out
+}
+
+// inPlaceVariant: two call statements that apply different operations (a different function leaf) and whose only
+// broken correspondence is the destination, the last operand — `op1(a, b, tmp)` next to `op2(a, b, a)` — are the
+// out-of-place and the in-place use of one operand pair, not two lanes of one operation.
+func inPlaceVariant(info *types.Info, s1, s2 ast.Stmt, a, b []leaf) bool {
+	e1, ok1 := s1.(*ast.ExprStmt)
+	e2, ok2 := s2.(*ast.ExprStmt)
+	if !ok1 || !ok2 {
+		return false
+	}
+	if _, ok := e1.X.(*ast.CallExpr); !ok {
+		return false
+	}
+	if _, ok := e2.X.(*ast.CallExpr); !ok {
+		return false
+	}
+	last := -1
+	otherOp := false
+	for i := range a {
+		if !renamable(info, a[i]) || !renamable(info, b[i]) {
+			continue
+		}
+		last = i
+		oa, ob := info.Uses[a[i].id], info.Uses[b[i].id]
+		if _, isF := oa.(*types.Func); isF && oa != ob {
+			otherOp = true
+		}
+	}
+	if last < 0 || !otherOp {
+		return false
+	}
+	a2 := append(append([]leaf{}, a[:last]...), a[last+1:]...)
+	b2 := append(append([]leaf{}, b[:last]...), b[last+1:]...)
+	return compareLeaves(info, a2, b2).inconsistency() == ""
 }
 
 // stripPos removes the position-dependent part of opaque shape tokens so that control statements of the same kind compare equal.
